@@ -1,5 +1,568 @@
-import Redproxy.Model.Fragment
+import Redproxy.Lemmas.Fragment
+/-!
+# C11 — fragmentation / reassembly is exact under reordering, duplication and interleaving
+
+Property theorems about `Redproxy.Fragment` (model of `src/common/fragment.rs`), all unbounded:
+
+* `make_fragments_sound`     sender: the payloads of the fragments concatenate to the frame, there are
+                             `⌈len/(mtu-4)⌉ ≤ 127` of them, each fits the MTU, headers number them `0..n-1`
+* `too_many_refused`         more than 127 fragments: nothing is emitted (the writer reports an error)
+* `single_fragment_exact`    a one-fragment frame is delivered as is and leaves no state
+* `reasm_follows_spec`       MAIN: for every frame of 2..127 fragments, every arrival sequence of its fragments
+                             (any order, any duplicates) interleaved with ARBITRARY datagrams of other ids
+                             (well-formed, malformed, short), reassembly emits exactly what the seen-set
+                             specification says: the original buffer at the step where the set of distinct
+                             fragments seen becomes complete, nothing at any other step
+* `spec_incomplete_silent`, `spec_first_completion`   consequences for the specification: never-completed ⇒ nothing;
+                             the first completion happens exactly when the last missing fragment arrives
+* `other_ids_untouched`      a datagram never changes the reassembly state of any other id (frames independent)
+* `inconsistent_ignored`     a fragment whose `total` differs from the frame being reassembled under its id is ignored
+* `no_panic`                 invariant over every history of datagrams and timer calls: no panic site is reachable
+* `timer_only_expired`       the timer removes a queue only if that queue's own deadline has passed
+                             (a stale FIFO entry of a completed frame cannot evict a newer frame reusing the id)
+-/
 namespace Redproxy.Props.C11
-open Redproxy.Fragment
-theorem stub : divCeil 10 4 = 3 := by decide
+open Redproxy Redproxy.Fragment
+
+/-! ## sender -/
+
+theorem make_fragments_sound (mtu id : Nat) (buf : Bytes) (hm : 4 < mtu)
+    (hn : divCeil buf.length (mtu - 4) ≤ 127) :
+    ∃ cs : List Bytes,
+      makeFragments mtu id buf = .ok (withHeaders id (divCeil buf.length (mtu - 4)) 0 cs) ∧
+      cs.flatten = buf ∧ cs.length = divCeil buf.length (mtu - 4) ∧
+      (∀ c ∈ cs, c ≠ [] ∧ c.length + 4 ≤ mtu) ∧
+      (∀ i, (withHeaders id (divCeil buf.length (mtu - 4)) 0 cs)[i]? =
+              (cs[i]?).map (fun c => header id (divCeil buf.length (mtu - 4)) i ++ c)) := by
+  refine ⟨chunks (mtu - 4) buf, ?_, chunks_flatten _ (by omega) _, chunks_length _ (by omega) _, ?_, ?_⟩
+  · unfold makeFragments
+    have h1 : ¬ mtu ≤ 4 := by omega
+    have h2 : ¬ divCeil buf.length (mtu - 4) > 127 := by omega
+    simp [h1, h2]
+  · intro c hc
+    have := chunks_bound (mtu - 4) (by omega) buf c hc
+    exact ⟨this.1, by omega⟩
+  · intro i
+    have := withHeaders_getElem? id (divCeil buf.length (mtu - 4)) 0 (chunks (mtu - 4) buf) i
+    simpa using this
+
+theorem too_many_refused (mtu id : Nat) (buf : Bytes) (hm : 4 < mtu)
+    (hn : 127 < divCeil buf.length (mtu - 4)) :
+    makeFragments mtu id buf = .ok [] ∧ tooLarge mtu buf = true := by
+  unfold makeFragments tooLarge
+  have h1 : ¬ mtu ≤ 4 := by omega
+  simp [h1, hn]
+
+/-- non-vacuity: a 10-byte frame at mtu 8 gives the 3 fragments of the repository's own unit test -/
+example : makeFragments 8 0 [49,50,51,52,53,54,55,56,57,48] =
+    .ok [[0,0,3,0,49,50,51,52], [0,0,3,1,53,54,55,56], [0,0,3,2,57,48]] := by
+  simp [makeFragments, divCeil, chunks, withHeaders, header]
+
+/-! ## receiver: specification -/
+
+/-- fragment `i` of the frame with id `id` whose payload chunks are `ps` (`n = ps.length`) -/
+def frag (id n : Nat) (ps : List Bytes) (i : Nat) : Bytes := header id n i ++ (ps[i]?).getD []
+
+/-- seen-set specification: `seen` = distinct fragment numbers received in the current round;
+    returns the new set and whether the frame is emitted at this step -/
+def specStep (n : Nat) (seen : List Nat) (i : Nat) : List Nat × Bool :=
+  if i ∈ seen then (seen, false)
+  else if ∀ j, j < n → (j = i ∨ j ∈ seen) then ([], true)
+  else (i :: seen, false)
+
+/-- what the model state must look like for id `id` when the specification has seen `seen` -/
+def Rel (id n : Nat) (ps : List Bytes) (st : St) (seen : List Nat) : Prop :=
+  match st.queue.get id with
+  | none => seen = []
+  | some q => seen ≠ [] ∧ q.frags.length = n ∧ q.bitmap < 2 ^ 128 ∧
+      (∀ j, j < 128 → q.bitmap.testBit j = (decide (n ≤ j) || decide (j ∈ seen))) ∧
+      (∀ j, j ∈ seen → j < n ∧ q.frags[j]? = ps[j]?) ∧ (∃ j, j < n ∧ j ∉ seen)
+
+theorem header_decode (id n i : Nat) (hid : id < 65536) (hn : n ≤ 127) (hi : i < n) :
+    be16 (id / 256 % 256) (id % 256) = id ∧ n % 256 = n ∧ i % 256 = i := by
+  unfold be16; omega
+
+theorem step_own (timeout now id n i : Nat) (ps : List Bytes) (st : St) (seen : List Nat)
+    (hid : id < 65536) (hn2 : 2 ≤ n) (hn : n ≤ 127) (hps : ps.length = n) (hi : i < n)
+    (hR : Rel id n ps st seen) :
+    Rel id n ps (reassemble timeout st now (frag id n ps i)).1 (specStep n seen i).1 ∧
+    (reassemble timeout st now (frag id n ps i)).2 =
+      (if (specStep n seen i).2 then Out.frame ps.flatten else Out.none) := by
+  obtain ⟨e1, e2, e3⟩ := header_decode id n i hid hn hi
+  have hpi : ps[i]? = some ((ps[i]?).getD []) := by
+    have : i < ps.length := by omega
+    simp [List.getElem?_eq_getElem this]
+  generalize hp : (ps[i]?).getD [] = p at hpi
+  have c1 : ¬ (n = 0 ∨ n > 127 ∨ i ≥ n) := by omega
+  have c2 : ¬ (n = 1 ∧ i = 0) := by omega
+  unfold Rel at hR
+  simp only [frag, header, hp, List.cons_append, List.nil_append, reassemble, e1, e2, e3, c1, c2, if_false]
+  cases hq : st.queue.get id with
+  | none =>
+    rw [hq] at hR
+    subst hR
+    have hnew : RQ.new n i p (now + timeout) = some
+        { bitmap := ((full128 <<< n) % 2 ^ 128) ||| (1 <<< i),
+          frags := (List.replicate n ([] : Bytes)).set i p, deadline := now + timeout } := by
+      unfold RQ.new
+      have : ¬ (n ≥ 128 ∨ i ≥ 128 ∨ i ≥ n) := by omega
+      simp [this]
+    have hspec : specStep n [] i = ([i], false) := by
+      unfold specStep
+      have : ¬ ∀ j, j < n → (j = i ∨ j ∈ ([] : List Nat)) := by
+        intro h
+        by_cases h0 : i = 0
+        · have := h 1 (by omega); simp at this; omega
+        · have := h 0 (by omega); simp at this; omega
+      rw [if_neg (by simp), if_neg this]
+    simp only [hnew, hspec]
+    refine ⟨?_, by simp⟩
+    unfold Rel
+    simp only [AMap.get_set_self]
+    refine ⟨by simp, by simp, newmap_lt n i (by omega), ?_, ?_, ?_⟩
+    · intro j hj
+      rw [testBit_newmap n i j hj]
+      by_cases hji : i = j
+      · subst hji; simp
+      · have : ¬ j = i := fun e => hji e.symm
+        simp [hji, this]
+    · intro j hj
+      simp only [List.mem_singleton] at hj
+      subst hj
+      refine ⟨hi, ?_⟩
+      simp [List.getElem?_set, hi, hpi]
+    · by_cases h0 : i = 0
+      · exact ⟨1, by omega, by simp; omega⟩
+      · exact ⟨0, by omega, by simp; omega⟩
+  | some q =>
+    rw [hq] at hR
+    obtain ⟨hne, hlen, hlt, hbits, hfr, hmiss⟩ := hR
+    have c3 : ¬ (q.frags.length ≠ n) := by omega
+    have c4 : ¬ (i ≥ 128) := by omega
+    have hbi : q.bitmap.testBit i = decide (i ∈ seen) := by
+      rw [hbits i (by omega)]
+      have : ¬ n ≤ i := by omega
+      simp [this]
+    simp only [c3, c4, if_false, hbi]
+    by_cases hin : i ∈ seen
+    · have hspec : specStep n seen i = (seen, false) := by simp [specStep, hin]
+      simp only [hin, decide_true, if_true, hspec]
+      refine ⟨?_, by simp⟩
+      unfold Rel; rw [hq]; exact ⟨hne, hlen, hlt, hbits, hfr, hmiss⟩
+    · have c5 : ¬ (i ≥ q.frags.length) := by omega
+      simp only [hin, decide_false, c5, if_false, Bool.false_eq_true]
+      have hlt' : q.bitmap ||| (1 <<< i) < 2 ^ 128 := setbit_lt hlt (by omega)
+      have hbits' : ∀ j, j < 128 → (q.bitmap ||| (1 <<< i)).testBit j =
+          (decide (n ≤ j) || decide (j ∈ i :: seen)) := by
+        intro j hj
+        rw [testBit_setbit, hbits j hj]
+        by_cases hji : i = j
+        · subst hji; simp
+        · have : ¬ j = i := fun e => hji e.symm
+          simp [hji, this]
+      have hfull : (q.bitmap ||| (1 <<< i) = full128) ↔ ∀ j, j < n → (j = i ∨ j ∈ seen) := by
+        rw [eq_full128_iff hlt']
+        constructor
+        · intro h j hj
+          have := h j (by omega)
+          rw [hbits' j (by omega)] at this
+          have hnj : ¬ n ≤ j := by omega
+          simpa [hnj] using this
+        · intro h j hj
+          rw [hbits' j hj]
+          by_cases hnj : n ≤ j
+          · simp [hnj]
+          · have := h j (by omega)
+            simp [hnj, this]
+      by_cases hall : ∀ j, j < n → (j = i ∨ j ∈ seen)
+      · have hspec : specStep n seen i = ([], true) := by
+          unfold specStep; rw [if_neg hin, if_pos hall]
+        have hf := hfull.mpr hall
+        simp only [hf, if_true, hspec]
+        have hfrags : q.frags.set i p = ps := by
+          apply List.ext_getElem?
+          intro j
+          rw [List.getElem?_set]
+          by_cases hji : i = j
+          · subst hji; simp [c5, hpi]
+          · simp only [hji, if_false]
+            by_cases hjn : j < n
+            · have := hall j hjn
+              cases this with
+              | inl e => exact absurd e.symm hji
+              | inr hm => exact (hfr j hm).2
+            · have h1 : q.frags[j]? = none := by
+                apply List.getElem?_eq_none; omega
+              have h2 : ps[j]? = none := by
+                apply List.getElem?_eq_none; omega
+              rw [h1, h2]
+        refine ⟨?_, by simp [hfrags]⟩
+        unfold Rel
+        simp
+      · have hspec : specStep n seen i = (i :: seen, false) := by
+          unfold specStep; rw [if_neg hin, if_neg hall]
+        have hf : ¬ (q.bitmap ||| (1 <<< i) = full128) := fun e => hall (hfull.mp e)
+        simp only [hf, if_false, hspec]
+        refine ⟨?_, by simp⟩
+        unfold Rel
+        simp only [AMap.get_set_self]
+        refine ⟨by simp, by simp [hlen], hlt', hbits', ?_, ?_⟩
+        · intro j hj
+          simp only [List.mem_cons] at hj
+          rw [List.getElem?_set]
+          cases hj with
+          | inl e =>
+            subst e
+            refine ⟨hi, ?_⟩
+            simp [c5, hpi]
+          | inr hm =>
+            have hji : ¬ i = j := fun e => hin (e ▸ hm)
+            simp only [hji, if_false]
+            exact hfr j hm
+        · have : ∃ j, j < n ∧ ¬ (j = i ∨ j ∈ seen) := by
+            apply Classical.byContradiction
+            intro hno
+            apply hall
+            intro j hj
+            apply Classical.byContradiction
+            intro hc
+            exact hno ⟨j, hj, hc⟩
+          obtain ⟨j, hj, hnot⟩ := this
+          exact ⟨j, hj, by simpa [List.mem_cons] using hnot⟩
+
+
+/-! ## independence of ids -/
+
+/-- the datagram does not carry id `id` (too short to have a header, or a different id) -/
+def OtherId (id : Nat) (d : Bytes) : Prop :=
+  match d with
+  | a :: b :: _ :: _ :: _ => be16 a b ≠ id
+  | _ => True
+
+/-- a datagram never changes the reassembly state of any other id -/
+theorem other_ids_untouched (timeout now k : Nat) (st : St) (d : Bytes) (h : OtherId k d) :
+    (reassemble timeout st now d).1.queue.get k = st.queue.get k := by
+  unfold reassemble
+  split
+  · rename_i i1 i0 total seq payload
+    simp only [OtherId] at h
+    have hk : k ≠ be16 i1 i0 := fun e => h e.symm
+    by_cases c1 : (total = 0 ∨ total > 127 ∨ seq ≥ total)
+    · simp [c1]
+    · by_cases c2 : (total = 1 ∧ seq = 0)
+      · simp [c1, c2]
+      · simp only [c1, c2, if_false]
+        cases hq : st.queue.get (be16 i1 i0) with
+        | none =>
+          cases hnew : RQ.new total seq payload (now + timeout) with
+          | none => rfl
+          | some q => simp only [AMap.get_set_ne _ _ hk]
+        | some q =>
+          simp only []
+          repeat' split
+          all_goals first | rfl | simp only [AMap.get_erase_ne _ hk, AMap.get_set_ne _ _ hk]
+  · rfl
+
+theorem single_fragment_exact (timeout now id : Nat) (st : St) (p : Bytes) :
+    reassemble timeout st now (header id 1 0 ++ p) = (st, Out.frame p) := by
+  simp [header, reassemble]
+
+/-- a fragment whose `total` disagrees with the frame being reassembled under its id changes nothing -/
+theorem inconsistent_ignored (timeout now : Nat) (st : St) (i1 i0 total seq : Nat) (payload : Bytes) (q : RQ)
+    (hq : st.queue.get (be16 i1 i0) = some q) (hne : q.frags.length ≠ total) (h1 : ¬ (total = 1 ∧ seq = 0)) :
+    reassemble timeout st now (i1 :: i0 :: total :: seq :: payload) = (st, Out.none) := by
+  simp only [reassemble, hq]
+  split
+  · rfl
+  · simp [h1, hne]
+
+/-! ## MAIN: any arrival sequence, interleaved with arbitrary foreign traffic -/
+
+inductive Ev where
+  | own (now i : Nat)              -- fragment `i` of our frame arrives at time `now`
+  | other (now : Nat) (d : Bytes)  -- any datagram not carrying our id arrives
+
+def EvOk (id n : Nat) : Ev → Prop
+  | .own _ i => i < n
+  | .other _ d => OtherId id d
+
+/-- outputs of the model for our fragments (`none` for foreign datagrams, whose output is not constrained) -/
+def runEv (timeout id n : Nat) (ps : List Bytes) : St → List Ev → List (Option Out)
+  | _, [] => []
+  | st, .own now i :: evs =>
+    let r := reassemble timeout st now (frag id n ps i)
+    some r.2 :: runEv timeout id n ps r.1 evs
+  | st, .other now d :: evs =>
+    none :: runEv timeout id n ps (reassemble timeout st now d).1 evs
+
+/-- what the seen-set specification prescribes -/
+def specEv (n : Nat) (buf : Bytes) : List Nat → List Ev → List (Option Out)
+  | _, [] => []
+  | seen, .own _ i :: evs =>
+    some (if (specStep n seen i).2 then Out.frame buf else Out.none) :: specEv n buf (specStep n seen i).1 evs
+  | seen, .other _ _ :: evs => none :: specEv n buf seen evs
+
+theorem reasm_follows_spec (timeout id n : Nat) (ps : List Bytes)
+    (hid : id < 65536) (hn2 : 2 ≤ n) (hn : n ≤ 127) (hps : ps.length = n)
+    (evs : List Ev) (hev : ∀ e ∈ evs, EvOk id n e) (st : St) (seen : List Nat) (hR : Rel id n ps st seen) :
+    runEv timeout id n ps st evs = specEv n ps.flatten seen evs := by
+  induction evs generalizing st seen with
+  | nil => rfl
+  | cons e evs ih =>
+    have he := hev e (by simp)
+    have hev' : ∀ e ∈ evs, EvOk id n e := fun e h => hev e (by simp [h])
+    cases e with
+    | own now i =>
+      have := step_own timeout now id n i ps st seen hid hn2 hn hps he hR
+      simp only [runEv, specEv, this.2]
+      rw [ih hev' _ _ this.1]
+    | other now d =>
+      simp only [runEv, specEv]
+      rw [ih hev' _ seen]
+      unfold Rel
+      rw [other_ids_untouched timeout now id st d he]
+      exact hR
+
+/-- the initial state (and any state without an entry for `id`) is related to the empty seen-set -/
+theorem rel_init (id n : Nat) (ps : List Bytes) (st : St) (h : st.queue.get id = none) : Rel id n ps st [] := by
+  unfold Rel; rw [h]
+
+/-- end-to-end corollary: sender ∘ receiver.  For every buffer and MTU giving 2..127 fragments, the fragments
+    produced by `makeFragments`, arriving in any order with any duplicates and interleaved with arbitrary foreign
+    datagrams, are reassembled to exactly `buf` at exactly the steps the specification names. -/
+theorem frag_reasm_exact (timeout mtu id : Nat) (buf : Bytes) (hm : 4 < mtu) (hid : id < 65536)
+    (hn2 : 2 ≤ divCeil buf.length (mtu - 4)) (hn : divCeil buf.length (mtu - 4) ≤ 127)
+    (evs : List Ev) (hev : ∀ e ∈ evs, EvOk id (divCeil buf.length (mtu - 4)) e)
+    (st : St) (hst : st.queue.get id = none) :
+    ∃ frs ps, makeFragments mtu id buf = .ok frs ∧
+      (∀ i, i < divCeil buf.length (mtu - 4) → frs[i]? = some (frag id (divCeil buf.length (mtu - 4)) ps i)) ∧
+      runEv timeout id (divCeil buf.length (mtu - 4)) ps st evs =
+        specEv (divCeil buf.length (mtu - 4)) buf [] evs := by
+  obtain ⟨cs, h1, h2, h3, _, h5⟩ := make_fragments_sound mtu id buf hm hn
+  refine ⟨_, cs, h1, ?_, ?_⟩
+  · intro i hi
+    rw [h5 i]
+    have : i < cs.length := by omega
+    simp [frag, List.getElem?_eq_getElem this]
+  · have := reasm_follows_spec timeout id _ cs hid hn2 hn h3 evs hev st [] (rel_init _ _ _ _ hst)
+    rw [h2] at this
+    exact this
+
+/-! ## no panic site is reachable, for every history of datagrams and timer calls (also serves C05) -/
+
+/-- state invariant: every queue has at most 127 slots and all bitmap bits from its length up to 127 are set
+    (so a clear bit always denotes a valid slot index) -/
+def Inv (st : St) : Prop := ∀ k q, st.queue.get k = some q →
+  q.frags.length ≤ 127 ∧ ∀ j, q.frags.length ≤ j → j < 128 → q.bitmap.testBit j = true
+
+theorem inv_init : Inv {} := by
+  intro k q h; simp [AMap.get] at h
+
+theorem inv_set (st : St) (id : Nat) (q : RQ) (tm : List (Nat × Nat)) (h : Inv st)
+    (hq : q.frags.length ≤ 127 ∧ ∀ j, q.frags.length ≤ j → j < 128 → q.bitmap.testBit j = true) :
+    Inv { queue := st.queue.set id q, timer := tm } := by
+  intro k q' hk
+  by_cases e : k = id
+  · subst e; simp only [AMap.get_set_self, Option.some.injEq] at hk; subst hk; exact hq
+  · simp only [AMap.get_set_ne _ _ e] at hk; exact h k q' hk
+
+theorem inv_erase (st : St) (id : Nat) (tm : List (Nat × Nat)) (h : Inv st) :
+    Inv { queue := st.queue.erase id, timer := tm } := by
+  intro k q' hk
+  by_cases e : k = id
+  · subst e; simp at hk
+  · simp only [AMap.get_erase_ne _ e] at hk; exact h k q' hk
+
+theorem reassemble_safe (timeout now : Nat) (st : St) (d : Bytes) (h : Inv st) :
+    (∀ s, (reassemble timeout st now d).2 ≠ Out.panic s) ∧ Inv (reassemble timeout st now d).1 := by
+  unfold reassemble
+  split
+  · rename_i i1 i0 total seq payload
+    by_cases c1 : (total = 0 ∨ total > 127 ∨ seq ≥ total)
+    · simp [c1]; exact h
+    · by_cases c2 : (total = 1 ∧ seq = 0)
+      · simp [c1, c2]; exact h
+      · simp only [c1, c2, if_false]
+        cases hq : st.queue.get (be16 i1 i0) with
+        | none =>
+          have hnew : RQ.new total seq payload (now + timeout) = some
+              { bitmap := ((full128 <<< total) % 2 ^ 128) ||| (1 <<< seq),
+                frags := (List.replicate total ([] : Bytes)).set seq payload, deadline := now + timeout } := by
+            unfold RQ.new
+            have : ¬ (total ≥ 128 ∨ seq ≥ 128 ∨ seq ≥ total) := by omega
+            simp [this]
+          simp only [hnew]
+          refine ⟨by simp, inv_set st _ _ _ h ⟨by simp; omega, ?_⟩⟩
+          intro j hj hj'
+          simp only [List.length_set, List.length_replicate] at hj
+          rw [testBit_newmap total seq j hj']
+          simp [hj]
+        | some q =>
+          obtain ⟨hql, hqb⟩ := h _ q hq
+          simp only []
+          by_cases c3 : q.frags.length ≠ total
+          · simp [c3]; exact h
+          · have c4 : ¬ seq ≥ 128 := by omega
+            simp only [c3, c4, if_false]
+            by_cases c5 : q.bitmap.testBit seq = true
+            · simp [c5]; exact h
+            · have c6 : ¬ seq ≥ q.frags.length := by
+                intro hge
+                exact c5 (hqb seq hge (by omega))
+              rw [if_neg c5, if_neg c6]
+              by_cases c7 : q.bitmap ||| (1 <<< seq) = full128
+              · rw [if_pos c7]
+                exact ⟨by simp, inv_erase st _ _ h⟩
+              · rw [if_neg c7]
+                refine ⟨by simp, inv_set st _ _ _ h ⟨by simp; omega, ?_⟩⟩
+                intro j hj hj'
+                simp only [List.length_set] at hj
+                rw [testBit_setbit, hqb j hj hj']
+                simp
+  · exact ⟨by simp, h⟩
+
+/-- what the timer may do to the queue of any id `k`: nothing, or remove it if its own deadline has passed -/
+theorem timerGo_get (now : Nat) (l : List (Nat × Nat)) (queue : AMap RQ) (k : Nat) :
+    (timerGo queue now l).queue.get k = queue.get k ∨
+    (∃ q, queue.get k = some q ∧ q.deadline < now ∧ (timerGo queue now l).queue.get k = none) := by
+  induction l generalizing queue with
+  | nil => left; rfl
+  | cons e l ih =>
+    obtain ⟨id, dl⟩ := e
+    unfold timerGo
+    by_cases hdl : dl < now
+    · simp only [hdl, if_true]
+      cases hq : queue.get id with
+      | none => exact ih queue
+      | some q =>
+        simp only []
+        by_cases hle : q.deadline ≤ dl
+        · simp only [hle, if_true]
+          by_cases e : k = id
+          · subst e
+            right
+            refine ⟨q, hq, by omega, ?_⟩
+            cases ih (queue.erase k) with
+            | inl h => rw [h]; simp
+            | inr h => exact h.choose_spec.2.2
+          · cases ih (queue.erase id) with
+            | inl h => left; rw [h, AMap.get_erase_ne _ e]
+            | inr h =>
+              obtain ⟨q', h1, h2, h3⟩ := h
+              right
+              rw [AMap.get_erase_ne _ e] at h1
+              exact ⟨q', h1, h2, h3⟩
+        · simp only [hle, if_false]; exact ih queue
+    · simp [hdl]
+
+/-- the timer removes a queue only if that queue's OWN deadline has passed: a stale FIFO entry left behind by a
+    completed frame cannot evict a newer, still incomplete frame that reuses the id -/
+theorem timer_only_expired (st : St) (now k : Nat) :
+    (timer st now).queue.get k = st.queue.get k ∨
+    (∃ q, st.queue.get k = some q ∧ q.deadline < now ∧ (timer st now).queue.get k = none) := by
+  unfold timer
+  exact timerGo_get now st.timer.reverse st.queue k
+
+theorem timer_keeps_fresh (st : St) (now k : Nat) (q : RQ) (hq : st.queue.get k = some q) (hd : now ≤ q.deadline) :
+    (timer st now).queue.get k = some q := by
+  cases timer_only_expired st now k with
+  | inl h => rw [h, hq]
+  | inr h =>
+    obtain ⟨q', h1, h2, _⟩ := h
+    rw [hq] at h1
+    simp only [Option.some.injEq] at h1
+    subst h1; omega
+
+theorem timer_inv (st : St) (now : Nat) (h : Inv st) : Inv (timer st now) := by
+  intro k q hk
+  cases timer_only_expired st now k with
+  | inl e => rw [e] at hk; exact h k q hk
+  | inr e => obtain ⟨_, _, _, e3⟩ := e; rw [e3] at hk; simp at hk
+
+inductive Op where
+  | dgram (now : Nat) (d : Bytes)
+  | tick (now : Nat)
+
+def stepOp (timeout : Nat) (st : St) : Op → St × Out
+  | .dgram now d => reassemble timeout st now d
+  | .tick now => (timer st now, Out.none)
+
+def runOps (timeout : Nat) : St → List Op → List Out
+  | _, [] => []
+  | st, op :: ops => (stepOp timeout st op).2 :: runOps timeout (stepOp timeout st op).1 ops
+
+/-- for EVERY history of datagrams (any bytes, any length) and timer calls from the initial state, at every
+    clock value: no output is a panic, i.e. no `split_to`, index, or shift-overflow site is reachable -/
+theorem no_panic (timeout : Nat) (ops : List Op) : ∀ o ∈ runOps timeout {} ops, ∀ s, o ≠ Out.panic s := by
+  suffices H : ∀ st, Inv st → ∀ o ∈ runOps timeout st ops, ∀ s, o ≠ Out.panic s from H {} inv_init
+  induction ops with
+  | nil => intro st _ o ho; simp [runOps] at ho
+  | cons op ops ih =>
+    intro st hst o ho
+    simp only [runOps, List.mem_cons] at ho
+    have hstep : (∀ s, (stepOp timeout st op).2 ≠ Out.panic s) ∧ Inv (stepOp timeout st op).1 := by
+      cases op with
+      | dgram now d => exact reassemble_safe timeout now st d hst
+      | tick now => exact ⟨by simp [stepOp], timer_inv st now hst⟩
+    cases ho with
+    | inl e => rw [e]; exact hstep.1
+    | inr h => exact ih _ hstep.2 o h
+
+/-- non-vacuity: hostile headers that crashed the unrepaired code (short datagram, total = 0, seq ≥ total,
+    total = 200) are covered by the quantifier and yield `none` -/
+example : runOps 5 {} [.dgram 0 [1, 2], .dgram 0 [0, 0, 0, 0, 9], .dgram 0 [0, 0, 3, 4, 9], .dgram 1 [0, 0, 200, 150, 9],
+    .tick 9] = [.none, .none, .none, .none, .none] := by decide
+
+/-! ## consequences for the specification (what "exactly once" means) -/
+
+def specEmits (n : Nat) : List Nat → List Nat → List Bool
+  | _, [] => []
+  | seen, i :: is => (specStep n seen i).2 :: specEmits n (specStep n seen i).1 is
+
+/-- a frame of which some fragment never arrives produces nothing, whatever else arrives how often -/
+theorem spec_incomplete_silent (n : Nat) (is : List Nat) (seen : List Nat) (m : Nat) (hm : m < n)
+    (hms : m ∉ seen) (hmi : m ∉ is) : ∀ b ∈ specEmits n seen is, b = false := by
+  induction is generalizing seen with
+  | nil => simp [specEmits]
+  | cons i is ih =>
+    have hne : m ≠ i := fun e => hmi (by simp [e])
+    have hmi' : m ∉ is := fun h => hmi (by simp [h])
+    have hnot : ¬ ∀ j, j < n → (j = i ∨ j ∈ seen) := by
+      intro h
+      cases h m hm with
+      | inl e => exact hne e
+      | inr h => exact hms h
+    intro b hb
+    simp only [specEmits, List.mem_cons] at hb
+    by_cases hin : i ∈ seen
+    · have e : specStep n seen i = (seen, false) := by unfold specStep; rw [if_pos hin]
+      rw [e] at hb
+      cases hb with
+      | inl h => exact h
+      | inr h => exact ih seen hms hmi' b h
+    · have e : specStep n seen i = (i :: seen, false) := by unfold specStep; rw [if_neg hin, if_neg hnot]
+      rw [e] at hb
+      cases hb with
+      | inl h => exact h
+      | inr h =>
+        refine ih (i :: seen) ?_ hmi' b h
+        simp only [List.mem_cons]
+        intro h'
+        cases h' with
+        | inl e => exact hne e
+        | inr h' => exact hms h'
+
+/-- the frame is emitted at the step at which the last missing fragment arrives (and the round restarts empty) -/
+theorem spec_completion_step (n : Nat) (seen : List Nat) (i : Nat) (hi : i ∉ seen)
+    (hall : ∀ j, j < n → (j = i ∨ j ∈ seen)) : specStep n seen i = ([], true) := by
+  unfold specStep; rw [if_neg hi, if_pos hall]
+
+/-- a duplicate of a fragment already seen in this round never emits and changes nothing -/
+theorem spec_duplicate_silent (n : Nat) (seen : List Nat) (i : Nat) (hi : i ∈ seen) :
+    specStep n seen i = (seen, false) := by
+  unfold specStep; rw [if_pos hi]
+
+/-- non-vacuity and a worked instance: 3 fragments arriving as 2,0,0,1 — one frame, at the last step -/
+example : specEmits 3 [] [2, 0, 0, 1] = [false, false, false, true] := by decide
+
 end Redproxy.Props.C11
